@@ -376,6 +376,50 @@ class C04(Check):
                 failures.append(Failure("rule-acts-off-positive-rule-grid", "rule `IF SYSTEM TIME %s %d` (rule step %d) first acts at t=%s, expected %d (first positive multiple of the rule step where it holds)" % (rel, thr, rule, first_closed, t_act),
                                         {"schedule": s, "observed_first_closed": first_closed, "expected": t_act, "timeline": rows[:8]}))
 
+    def _rule_priority_oracle(self, ctx, failures):
+        """two rules with the same time condition and opposite actions on one target: from the first positive rule
+        timestep at which the condition holds the target has the value of the HIGHER priority rule (later registration
+        on equal priorities) -- also when a time control's instant coincides with that rule timestep (the rules are
+        then run from another branch of the scheduler) or lies just before / after it"""
+        wntr = vlib.import_wntr()
+        rng = ctx.rng
+        n = 16 if ctx.quick else 100
+        for i in range(n):
+            hyd = rng.choice([1800, 3600, 7200])
+            rule = rng.choice([300, 360, 600, 900])
+            k = rng.randint(1, 20)
+            thr = rule * k - rng.choice([0, 0, rng.randint(0, rule - 1)])
+            p1, p2 = rng.sample([0, 1, 2, 3, 4, 5], 2) if i % 4 else (3, 3)
+            v1 = rng.randint(0, 1)
+            order = rng.random() < 0.5
+            r1 = {"id": 0, "kind": "R", "prio": p1, "cond": ("sim", "ge", thr, 0), "then": [(0, v1)], "else": []}
+            r2 = {"id": 1, "kind": "R", "prio": p2, "cond": ("sim", "ge", thr, 0), "then": [(0, 1 - v1)], "else": []}
+            rules = [r1, r2] if order else [r2, r1]
+            for j, r in enumerate(rules):
+                r["id"] = j
+            mode = i % 3
+            ctls = list(rules)
+            t_act = rule * k
+            if mode:  # a time control on another target: on the rule timestep (mode 1) or shortly before it (mode 2)
+                at = t_act if mode == 1 else max(1, t_act - rng.randint(1, rule - 1))
+                ctls.append({"id": 2, "kind": "P", "prio": 3, "cond": ("sim", "eq", at, 0), "then": [(1, 0)], "else": []})
+            s = {"hyd": hyd, "rule": rule, "report": 0, "duration": max(4 * hyd, ((t_act // hyd) + 3) * hyd), "start_clock": 0,
+                 "init": {"0": 1 - (rules[-1]["then"][0][1] if p1 == p2 else (r1 if p1 > p2 else r2)["then"][0][1]), "1": 1}, "controls": ctls}
+            winner = rules[-1] if p1 == p2 else (r1 if p1 > p2 else r2)
+            exp = winner["then"][0][1]
+            wn = schedgen.build_wn(wntr, s)
+            rows, _ = schedgen.run_impl(wntr, wn)
+            ctx.case(("ruleprio", hyd, rule, thr, p1, p2, order, mode), True)
+            ctx.count("rule-priority:mode%d" % mode)
+            at_rows = [v for t, v in rows if t >= t_act]
+            first = next(((t, v[0]) for t, v in rows if t >= t_act), None)
+            if first is None or first[0] != t_act or any(v[0] != exp for v in at_rows):
+                failures.append(Failure("rule-priority-not-respected",
+                                        "rules `IF SYSTEM TIME >= %d` with priorities %d and %d writing opposite values (rule step %d%s): from t=%d the target must be %d, observed %s"
+                                        % (thr, rules[0]["prio"], rules[1]["prio"], rule, ["", ", time control on that rule timestep", ", time control just before it"][mode], t_act, exp,
+                                           [(t, v[0]) for t, v in rows if t >= t_act - hyd][:5]),
+                                        {"schedule": s, "expected_from": t_act, "expected_value": exp, "timeline": [(t, v[0]) for t, v in rows][:12]}))
+
     def correspondence(self, ctx):
         failures, broken = [], []
         # corpus first
@@ -396,6 +440,7 @@ class C04(Check):
             scheds.append(s)
         self._run_schedules(ctx, failures, broken, scheds, "random")
         self._rule_grid_oracle(ctx, failures)
+        self._rule_priority_oracle(ctx, failures)
         return failures, broken
 
     def search(self, ctx, broken):
@@ -410,6 +455,7 @@ class C04(Check):
                     c["cond"] = (c["cond"][0], "eq") + tuple(c["cond"][2:])
         self._run_schedules(ctx, failures, b2, scheds, "search")
         self._rule_grid_oracle(ctx, failures)
+        self._rule_priority_oracle(ctx, failures)
         return failures
 
     def replay(self, ctx, path):
